@@ -15,7 +15,7 @@ import ast
 from ..model import AnalysisError
 from ..terms import T, walk_terms
 from ..absint import AV, TOP, cav
-from ..walk import (data_derives, ret_alts, call_parts, call_arg, is_call_to, const_val, NOVAL, strip_views, unwrap_gamma, axis_uses, same_value, struct_eq, cond_polarity, loop_role, index_chain, is_full_slice, last_axis_product_sum, index_extent, indexed_values, gamma_paths, possible_consts)
+from ..walk import (dead_leaf, data_derives, ret_alts, call_parts, call_arg, is_call_to, const_val, NOVAL, strip_views, unwrap_gamma, axis_uses, same_value, struct_eq, cond_polarity, loop_role, index_chain, is_full_slice, last_axis_product_sum, index_extent, indexed_values, gamma_paths, possible_consts)
 from ..lin import linearise, product_factors, peel
 
 S = 'pb_bss.evaluation.sxr_module::'
@@ -26,24 +26,35 @@ def check_ratios(run, A):
         q = S + name
         fn = A.prog.func(q)
         g = A.graphs.get(fn)
-        calls = [e.term for e in g.events if e.kind == 'call' and call_parts(e.term)[0] == S + '_sxr']
-        if len(calls) != 3:
-            raise AnalysisError(f'{name}: expected three _sxr ratios, found {len(calls)}')
-        sig = [strip_views(call_arg(c, 0)) for c in calls]
-        dens = [strip_views(call_arg(c, 1)) for c in calls]
-        same_s = sig[0] is sig[1] is sig[2]
-        run.check(same_s, 'IDENT', f'{name}: SDR, SIR, SNR share the same signal power', fn.loc(calls[0].node), '', 'the three ratios do not use the identical numerator', construct=f'IDENT::{q}::same-signal')
-        sums = [d for d in dens if d.op == 'binop' and d.args[0] == 'Add']
-        plain = [d for d in dens if not (d.op == 'binop' and d.args[0] == 'Add')]
-        ok = len(sums) == 1 and len(plain) == 2
-        if ok:
-            parts = {id(strip_views(sums[0].args[1])), id(strip_views(sums[0].args[2]))}
-            ok = parts == {id(plain[0]), id(plain[1])} and plain[0] is not plain[1]
-        run.check(ok, 'IDENT', f'{name}: distortion = interference + noise (1/SDR = 1/SIR + 1/SNR)', fn.loc(calls[0].node), '',
-                  'the denominator of the SDR is not the sum of exactly the SIR and SNR denominators', construct=f'IDENT::{q}::power-decomposition')
+        evs = [e for e in g.events if e.kind == 'call' and call_parts(e.term)[0] == S + '_sxr']
+        # one triple per alternative of the function (the three ratios may be written once per branch of an option, or once for a value selected by the option)
+        groups = {}
+        for e in evs:
+            groups.setdefault(tuple((id(c), p) for c, p in e.guards), []).append(e.term)
+        if not groups or any(len(v) != 3 for v in groups.values()):
+            raise AnalysisError(f'{name}: expected three _sxr ratios (per alternative), found {[len(v) for v in groups.values()] or 0}')
+        sdr_calls, other_calls = [], []
+        all_ok = True
+        for calls in groups.values():
+            sig = [strip_views(call_arg(c, 0)) for c in calls]
+            dens = [strip_views(call_arg(c, 1)) for c in calls]
+            same_s = sig[0] is sig[1] is sig[2]
+            run.check(same_s, 'IDENT', f'{name}: SDR, SIR, SNR share the same signal power', fn.loc(calls[0].node), '', 'the three ratios do not use the identical numerator', construct=f'IDENT::{q}::same-signal')
+            sums = [d for d in dens if d.op == 'binop' and d.args[0] == 'Add']
+            plain = [d for d in dens if not (d.op == 'binop' and d.args[0] == 'Add')]
+            ok = len(sums) == 1 and len(plain) == 2
+            if ok:
+                parts = {id(strip_views(sums[0].args[1])), id(strip_views(sums[0].args[2]))}
+                ok = parts == {id(plain[0]), id(plain[1])} and plain[0] is not plain[1]
+            run.check(ok, 'IDENT', f'{name}: distortion = interference + noise (1/SDR = 1/SIR + 1/SNR)', fn.loc(calls[0].node), '',
+                      'the denominator of the SDR is not the sum of exactly the SIR and SNR denominators', construct=f'IDENT::{q}::power-decomposition')
+            all_ok = all_ok and ok
+            if ok:
+                sdr = calls[dens.index(sums[0])]
+                sdr_calls.append(sdr)
+                other_calls += [c for c in calls if c is not sdr]
         # which ratio is reported as SDR: the one with the summed denominator (first field of the result tuple / key 'sdr')
-        if ok:
-            sdr_call = calls[dens.index(sums[0])]
+        if all_ok:
             reported = []
             for r in ret_alts(g):
                 r = strip_views(r)
@@ -55,9 +66,10 @@ def check_ratios(run, A):
                             reported.append(v)
                 elif r.op == 'call' and pos:
                     reported.append(pos[0])
-            okr = bool(reported) and all(any(x is sdr_call for x in walk_terms(v)) for v in reported)
-            others = [c for c in calls if c is not sdr_call]
-            okr = okr and all(not any(x is c for c in others for x in walk_terms(v)) for v in reported)
+                elif r.op == 'tuple' and r.args[0]:
+                    reported.append(r.args[0][0])          # ResultTuple(sdr, sir, snr) of a record type
+            okr = bool(reported) and all(any(x is c for c in sdr_calls for x in walk_terms(v)) for v in reported)
+            okr = okr and all(not any(x is c for c in other_calls for x in walk_terms(v)) for v in reported)
             run.check(okr, 'IDENT', f'{name}: the ratio over interference + noise is what is reported as SDR', fn.loc(), '', 'the value reported as SDR is not the ratio with the summed denominator',
                       construct=f'IDENT::{q}::order')
     # _sxr is a pure ratio 10 log10(S / X)
@@ -92,13 +104,16 @@ def check_pooling(run, A):
     g = A.graphs.get(fn)
     if 'average_channels' not in fn.params:
         raise AnalysisError('input_sxr: option average_channels vanished')
-    calls = [e.term for e in g.events if e.kind == 'call' and call_parts(e.term)[0] == S + '_sxr']
+    call_events = [e for e in g.events if e.kind == 'call' and call_parts(e.term)[0] == S + '_sxr']
     n, bad = 0, []
-    for c in calls:
+    for ce in call_events:
+        c = ce.term
+        # the option may select the operands (a conditional inside the operand) or the whole triple of ratios (the call sits in a branch of the option)
+        under = {id(ct): (ct, pol) for ct, pol in ce.guards}
         for pos in (0, 1):
             for part in _sum_parts(call_arg(c, pos)):
                 pooled, unpooled_under_option, other = 0, [], []
-                for conds, leaf in gamma_paths(part):
+                for conds, leaf in gamma_paths(part, under):
                     on = [pol for (ct, pol) in conds.values() if strip_views(ct).op == 'param' and strip_views(ct).args[0] == 'average_channels']
                     leaf0 = strip_views(leaf)
                     # np.sum(p, axis) / D with D the number of sensors is the mean
@@ -119,6 +134,9 @@ def check_pooling(run, A):
                     elif not on:
                         unpooled_under_option.append('the operand does not depend on average_channels')
                 n += 1
+                if under and all(not pol for ct, pol in under.values() if strip_views(ct).op == 'param' and strip_views(ct).args[0] == 'average_channels') and \
+                        any(strip_views(ct).op == 'param' and strip_views(ct).args[0] == 'average_channels' for ct, _p in under.values()):
+                    continue          # the triple of the branch without pooling
                 if other and not unpooled_under_option:
                     raise AnalysisError(f'input_sxr: the pooling of a power under average_channels is no longer recognised ({other[0]!r:.120})')
                 if not (pooled >= 1 and not unpooled_under_option):
@@ -186,6 +204,21 @@ def _power_of(t, pname):
 def _extent_is_dim(lp, pname, index):
     """the running index `lp` ranges over axis `index` (of 3) of <pname>.shape"""
     ext = index_extent(lp)
+    if isinstance(ext, tuple) and ext and ext[0] == 'len':
+        # for k, row in enumerate(X) / for row in X: the first axis of X
+        xs = ext[1] if isinstance(ext[1], tuple) else (ext[1],)
+        for x in xs:
+            x = strip_views(x)
+            while x.op in ('mu', 'store'):
+                x = strip_views(x.args[0])
+            if is_call_to(x, 'numpy.zeros', 'numpy.ones', 'numpy.empty', 'numpy.full'):
+                shp = strip_views(call_arg(x, 0, 'shape'))
+                first = shp.args[0][0] if shp.op in ('tuple', 'list') and shp.args[0] else shp
+                if isinstance(first, T) and _dim_of(first, pname, index):
+                    return True
+            if index == 0 and (_power_of(x, pname) or (x.op == 'param' and x.args[0] == pname)):
+                return True
+        return False
     return isinstance(ext, T) and _dim_of(ext, pname, index)
 
 
@@ -322,8 +355,10 @@ def check_selection(run, A):
         okk = isinstance(k, tuple) and k[0] == 'index' and getattr(k[1], 'iter', None) is iters[0]
         if okk:
             ext = index_extent(k[1])
+            members = [ext[1]] if isinstance(ext, tuple) and ext[0] == 'len' and isinstance(ext[1], T) else list(ext[1]) if isinstance(ext, tuple) and ext[0] == 'len' else []
+            # range(K_source) | the positions of the candidate row itself | zip(S, candidate row): as many steps as there are sources
             okk = (isinstance(ext, T) and _dim_of(ext, 'image_contribution', 0)) or \
-                (isinstance(ext, tuple) and ext[0] == 'len' and isinstance(ext[1], T) and index_chain(ext[1]) == (pb, [('index', Lp)]))
+                any(index_chain(m_) == (pb, [('index', Lp)]) or _power_of(m_, 'image_contribution') for m_ in members)
         if okk and okp:
             sel_arr = pb
             src_ok = perms and any(x is perms[0] for x in walk_terms(sel_arr))
@@ -443,7 +478,7 @@ def check_return_dict(run, A):
                                 kinds.add('param')
                             elif const_val(alt) == '':
                                 kinds.add('empty')
-                            elif alt.op != 'raise':
+                            elif not dead_leaf(alt):
                                 kinds.add('?')
                     else:
                         okp = False
@@ -471,6 +506,7 @@ def check_si_sdr(run, A):
         raise AnalysisError('si_sdr: reductions not found')
     r = [peel(x) for x in ret_alts(g)]
     ok = False
+    recognised = False          # the skeleton 10 log10(sum(p^2) / sum((e - p)^2)) with p = (a / b) * s was found: what is left to compare is decided either way
     if len(r) == 1:
         c, fs = product_factors(r[0])
         lg = [f for f in fs if is_call_to(peel(f), 'numpy.log10')]
@@ -483,17 +519,22 @@ def check_si_sdr(run, A):
                     r_ = last_axis_product_sum(t_)
                     return peel(r_[0]) if r_ is not None and r_[0] is r_[1] else None
                 proj, noise = sq_of(num), sq_of(den)
+                recognised = proj is not None and noise is not None          # a ratio of two energies: how they are formed is decided below
                 if proj is not None and noise is not None and noise.op == 'binop' and noise.args[0] == 'Sub':
                     ok = peel(noise.args[2]) is proj and proj.op == 'binop' and proj.args[0] == 'Mult'
                     if ok:
-                        alpha = [x for x in (peel(proj.args[1]), peel(proj.args[2])) if x.op == 'binop' and x.args[0] == 'Div']
+                        alpha = [x for x in (peel(proj.args[1]), peel(proj.args[2])) if x.op in ('binop', 'iop') and x.args[0] == 'Div']
                         ok = len(alpha) == 1 and last_axis_product_sum(alpha[0].args[1]) is not None and last_axis_product_sum(alpha[0].args[2]) is not None
                         if ok:
                             # alpha = <s, s_hat> / <s, s>: the denominator is the energy of the signal that is scaled
                             other = [x for x in (peel(proj.args[1]), peel(proj.args[2])) if x is not alpha[0]]
                             e_ = last_axis_product_sum(alpha[0].args[2])
                             ok = e_[0] is e_[1] and len(other) == 1 and strip_views(other[0]) is e_[0]
-    run.check(ok, 'FORM', 'si_sdr: 10 log10(|alpha s|^2 / |s_hat - alpha s|^2) with alpha = <s, s_hat> / |s|^2', fn.loc(), '', 'projection form not recognised', construct=f'FORM::{q}::projection')
+    if not ok and not recognised:
+        run.unresolved('FORM', 'si_sdr: 10 log10(|alpha s|^2 / |s_hat - alpha s|^2) with alpha = <s, s_hat> / |s|^2', fn.loc(), 'projection form not recognised')
+    else:
+        run.check(ok, 'FORM', 'si_sdr: 10 log10(|alpha s|^2 / |s_hat - alpha s|^2) with alpha = <s, s_hat> / |s|^2', fn.loc(), '',
+                  'numerator and denominator are energies, but not |alpha s|^2 and |s_hat - alpha s|^2 with alpha = <s, s_hat> / |s|^2', construct=f'FORM::{q}::projection')
 
 
 def check_snr(run, A):
